@@ -202,6 +202,7 @@ def _main(check):
         print(json.dumps(res, indent=1)); ok = check.confirm(case, res)
         print("violation reproduced on the real build" if ok else "not reproduced"); sys.exit(1 if ok else 0)
     fams = check.families(eng, tier, seed)
+    if os.environ.get("VERIF_ONLY"): fams = [f for f in fams if os.environ["VERIF_ONLY"] in f.name]
     log("%d families" % len(fams))
     summ, viol, validate, error = explore_families(eng, fams, log)
     if error:
